@@ -609,6 +609,14 @@ where
             });
             return None;
         }
+        // The attempt that raised `FatalEvmError(txid)` stored the error `post_execute` is going
+        // to return and then re-offered the transaction. A worker that claimed it before noticing
+        // the abort must not run it again: a different outcome (a transient database error gone,
+        // an invalid-transaction verdict) would replace the error the abort refers to. The abort
+        // was raised under this transaction's lock, so it is visible here.
+        if matches!(self.abort_reason.get(), Some(AbortReason::FatalEvmError(fatal)) if *fatal == txid) {
+            return None;
+        }
         self.metrics.record_execution_attempt();
 
         let tx_env = self.txs[txid].clone();
